@@ -106,6 +106,20 @@ Theorem C06_expression_check_sound : forall f1 f2 n s sa acc t sa' acc',
   end.
 Proof. exact checked_expression_does_not_fail_on_types. Qed.
 
+(* ... and for the assignment (scalar or array cell, any subscripts) and the
+   PRINT statement (any item list): accepted by the statement analyzer at the
+   cursor => executing it there stores / prints, or fails with an error that is
+   neither a syntax error nor a type mismatch *)
+Theorem C06_assignment_check_sound : forall f1 f2 nest sym s sa acc sa' acc',
+  R s sa -> an_assignment f2 nest sym (sa, acc) = (Ok tt, (sa', acc')) ->
+  stmt_ok (evaluate_assignment_statement f1 nest sym s).
+Proof. exact checked_assignment_does_not_fail_on_types. Qed.
+
+Theorem C06_print_check_sound : forall f1 f2 nest s sa acc sa' acc',
+  R s sa -> an_print f2 nest (sa, acc) = (Ok tt, (sa', acc')) ->
+  stmt_ok (evaluate_print_statement f1 nest s).
+Proof. exact checked_print_does_not_fail_on_types. Qed.
+
 (* non-vacuity: a fresh interpreter and a fresh analyzer state looking at the
    immediate line  (A + 1) * 2 < N(3) OR B$ = "x" : related, accepted as a number *)
 Example C06_sound_example :
@@ -128,3 +142,5 @@ Print Assumptions C06_checker_assignment.
 Print Assumptions C06_interpreter_assignment.
 Print Assumptions C06_comparisons_are_numbers.
 Print Assumptions C06_expression_check_sound.
+Print Assumptions C06_assignment_check_sound.
+Print Assumptions C06_print_check_sound.
